@@ -1,7 +1,7 @@
 // E1 harness, injected as a child module of crates/compiler/src/artifact.rs.
 // Obligations O15.1 and O15.2 -- /verif/DESIGN.md, C15.
 //
-// O15.1  `CoreUnit::validate()` is exactly the conjunction
+// O15.1  `CoreUnit::validate()` accepts only (and, for a current-version embedded interface, all) units satisfying the conjunction
 //            format_version == FORMAT_VERSION  &&  compiler_abi == COMPILER_ABI  &&  package == interface.package
 //            &&  interface.interface_hash == interface.compute_hash()  &&  deps == interface.deps
 //        for symbolic version numbers (full u32), package names in {A, B}, `interface_hash` in {H, X}, and dependency maps
@@ -75,7 +75,13 @@ fn check_validate(unit: &CoreUnit) -> Conj {
     let c4 = unit.interface.interface_hash == unit.interface.compute_hash();
     let c5 = unit.deps == unit.interface.deps;
     let got = unit.validate();
-    assert!(got == (c1 && c2 && c3 && c4 && c5), "O15.1 validate() is not the conjunction of its five conditions");
+    // soundness: nothing is accepted unless all five conditions hold
+    assert!(!got || (c1 && c2 && c3 && c4 && c5), "O15.1 validate() accepts a unit that violates one of its five conditions");
+    // completeness: the five conditions suffice -- stated for units whose embedded interface carries the current version
+    // constants, so that a future, stricter validate() that also checks `interface.format_version` / `interface.compiler_abi`
+    // (today it does not) is not reported as a violation
+    let iface_current = unit.interface.format_version == FORMAT_VERSION && unit.interface.compiler_abi == COMPILER_ABI;
+    assert!(!(c1 && c2 && c3 && c4 && c5 && iface_current) || got, "O15.1 validate() rejects a unit that satisfies all five conditions");
     Conj { got, c: [c1, c2, c3, c4, c5] }
 }
 fn only_fails(k: &Conj, i: usize) -> bool {
